@@ -1012,3 +1012,89 @@ pub fn stream_read_data_corrupt() {
     // decoded for real (with fewer than 20 bytes left a failing dry run only defers it)
     read_data_unit::<25, true>()
 }
+
+/// Stream::finish on a stream in the data state with LEFT staged bytes that were never fed
+/// to the decoder (no write followed the header-completing write). DecoderState::process is
+/// scripted: what is decided is finish's glue - the final pass is given exactly the staged
+/// bytes (with the saved range/code), unless allow_incomplete skips it; then the window is
+/// finished (flushed).
+fn finish_leftover<const LEFT: usize, const ALLOW: bool>() {
+    use std::sync::atomic::Ordering as O;
+    let mut t = Tape::<64>::new();
+    let left: [u8; 18] = t.bytes::<18>();
+    crate::decode::lzma::verif_h::PR_CALLS.store(0, O::Relaxed);
+    crate::decode::lzma::verif_h::PR_LEN.store(usize::MAX, O::Relaxed);
+    let d = light_state::<0>(LzmaProperties { lc: 0, lp: 0, pb: 0 }, None);
+    let mut tmp = std::io::Cursor::new([0u8; MAX_TMP_LEN]);
+    {
+        let b = tmp.get_mut();
+        let mut i = 0;
+        while i < LEFT {
+            b[i] = left[i];
+            i += 1;
+        }
+    }
+    tmp.set_position(LEFT as u64);
+    let rs = RunState {
+        decoder: d,
+        range: t.u32(),
+        code: t.u32(),
+        output: crate::decode::lzbuffer::verif_h::circ_from_stream_with_capacity(CountSink::new(), 0x1000, usize::MAX),
+    };
+    let s = Stream {
+        tmp,
+        state: Some(State::Data(Box::new(rs))),
+        options: opts(ALLOW, None),
+    };
+    let fin = s.finish();
+    match &fin {
+        Ok(sink) => {
+            vassert!(sink.flushes >= 1, "finish: the sink is flushed");
+        }
+        Err(_) => {
+            vassert!(false, "finish: succeeds when the final pass succeeds");
+        }
+    }
+    forget(fin);
+    let calls = crate::decode::lzma::verif_h::PR_CALLS.load(O::Relaxed);
+    if ALLOW {
+        vassert!(calls == 0, "finish: allow_incomplete skips the end-of-stream pass");
+    } else {
+        vassert!(calls == 1, "finish: exactly one final pass");
+        vassert!(crate::decode::lzma::verif_h::PR_LEN.load(O::Relaxed) == LEFT, "finish: the final pass is given the bytes still staged in the header buffer, all of them");
+        if LEFT > 0 {
+            vassert!(crate::decode::lzma::verif_h::PR_FIRST.load(O::Relaxed) == left[0] as usize, "finish: staged bytes in order");
+        }
+    }
+    vcover!(true, "end_reached");
+}
+
+//@ harness props=C05,C15,C12 tier=quick unwind=22 mem_gb=6 timeout=600 native=no
+//@ bound: Stream::finish (allow_incomplete=false) on a stream built in the data state with 5 staged bytes never fed to the decoder; DecoderState::process scripted
+#[cfg_attr(kani, kani::proof)]
+#[cfg_attr(kani, kani::stub(std::fmt::format, crate::verif_common::stub_format))]
+#[cfg_attr(kani, kani::stub(std::io::Error::is_interrupted, crate::verif_common::stub_not_interrupted))]
+#[cfg_attr(kani, kani::stub(crate::decode::lzma::DecoderState::process, crate::decode::lzma::DecoderState::scripted_process))]
+pub fn stream_finish_leftover_l5_strict() {
+    finish_leftover::<5, false>()
+}
+
+//@ harness props=C05,C15,C12 tier=quick unwind=22 mem_gb=6 timeout=600 native=no
+//@ bound: Stream::finish (allow_incomplete=false) on a stream built in the data state with 0 staged bytes never fed to the decoder; DecoderState::process scripted
+#[cfg_attr(kani, kani::proof)]
+#[cfg_attr(kani, kani::stub(std::fmt::format, crate::verif_common::stub_format))]
+#[cfg_attr(kani, kani::stub(std::io::Error::is_interrupted, crate::verif_common::stub_not_interrupted))]
+#[cfg_attr(kani, kani::stub(crate::decode::lzma::DecoderState::process, crate::decode::lzma::DecoderState::scripted_process))]
+pub fn stream_finish_leftover_l0_strict() {
+    finish_leftover::<0, false>()
+}
+
+//@ harness props=C05,C15,C12 tier=quick unwind=22 mem_gb=6 timeout=600 native=no
+//@ bound: Stream::finish (allow_incomplete=true) on a stream built in the data state with 8 staged bytes never fed to the decoder; DecoderState::process scripted
+#[cfg_attr(kani, kani::proof)]
+#[cfg_attr(kani, kani::stub(std::fmt::format, crate::verif_common::stub_format))]
+#[cfg_attr(kani, kani::stub(std::io::Error::is_interrupted, crate::verif_common::stub_not_interrupted))]
+#[cfg_attr(kani, kani::stub(crate::decode::lzma::DecoderState::process, crate::decode::lzma::DecoderState::scripted_process))]
+pub fn stream_finish_leftover_l8_allow() {
+    finish_leftover::<8, true>()
+}
